@@ -89,6 +89,9 @@ def role_ok(name, val, cx):
     if name == "channels":
         return (e is not None and "channels" in L.field_names(e)), "configured channel count"
     if name == "samplerate16":
+        if cx.path[-1:] == (b"Opus",):
+            # Opus-in-ISOBMFF 4.3: the sample entry's rate is 48000 whatever the input rate
+            return cint == (48000 << 16), "48000 << 16 for the Opus sample entry"
         if e is not None:
             return S.shl16_of("sample_rate")(e), "sample_rate << 16"
         return cint == (48000 << 16), "48000 << 16"
